@@ -146,8 +146,15 @@ def evaluate(lines):
 
 def execute(reqs):
     """run request lines through the real code (harness replay) and the model"""
-    rc, out = run_harness(['replay'], stdin_text='\n'.join(reqs) + '\n')
-    return evaluate(out.splitlines())
+    ext = [r for r in reqs if r.split(' ', 1)[0] in props.EXTERNAL]
+    lines = []
+    if ext:
+        for r in ext: lines += props.EXTERNAL[r.split(' ', 1)[0]]([r])
+    rest = [r for r in reqs if r not in ext]
+    if rest:
+        rc, out = run_harness(['replay'], stdin_text='\n'.join(rest) + '\n')
+        lines += out.splitlines()
+    return evaluate(lines)
 
 
 # ----------------------------------------------------------------------------- search / shrink
@@ -232,6 +239,8 @@ def check(pid, tier, seed):
         rc, out = run_harness(['replay'], stdin_text=open(corpus).read()); lines += out.splitlines()
     gens = cfg['gens'](seed, thorough)
     for g in gens:
+        if callable(g):
+            lines += g(); continue
         rc, out = run_harness(g)
         if rc != 0:
             print(out[-2000:]); print(f'harness failed: {g}')
@@ -284,6 +293,7 @@ def check(pid, tier, seed):
             if fails: break
         if not fails and not thorough:
             for g in cfg['gens'](seed + 1, True):
+                if callable(g): continue
                 rc, out = run_harness(g)
                 cs = evaluate(out.splitlines()); searched += len(cs)
                 fails += [d for d in cs if d.verdicts.get(oracle) == 'FAILS' and not is_known(d)]
